@@ -85,6 +85,11 @@ def tempo_maps(draw, max_segments: int = 24, values=bpm_values, res=resolutions,
             pg, pgap, n = pattern[k % len(pattern)]
         elif k > 0 and draw(st.integers(0, 6)) == 0:
             n = tempo[-1][1]          # a tempo event that restates the tempo already in force
+        elif k > 0 and draw(st.integers(0, 9)) == 0:
+            # a tempo in a simple ratio to the one in force (double / half time, x3, x1000)
+            p = tempo[-1][1]
+            n = draw(st.sampled_from([p * 2, max(1, p // 2), p * 3, max(1, p // 3), min(p * 1000, 10 ** 9), max(1, p // 1000)]))
+            n = max(1, min(n, 10 ** 9))
         else:
             n = draw(values)
         if k > 0:
